@@ -21,7 +21,7 @@ TIERS = {
 REQUIRED_PROBES = {
     "quick": ["probe.multiindex_request", "probe.dict_request", "probe.repeated_age", "probe.unsorted_ages", "probe.far_extrapolation"],
     "thorough": ["probe.multiindex_request", "probe.dict_request", "probe.repeated_age", "probe.unsorted_ages", "probe.far_extrapolation",
-                 "probe.single_age", "probe.reference_time_checked", "probe.monotone_checked", "probe.after_fit_model", "probe.individuals_reordered"],
+                 "probe.single_age", "probe.reference_time_checked", "probe.monotone_checked", "probe.after_fit_model", "probe.individuals_reordered", "probe.parameters_updated_in_place"],
 }
 DESCRIBE = {
     "rule": "one case = one model (hand-written parameters loaded through BaseModel.load, or freshly fitted) and a seeded sequence of 2-8 estimate / "
@@ -50,6 +50,11 @@ def make_plan(seed: int, tier: str) -> dict:
     plan = {"seed": seed, "tier": tier, "engine": "apisim_c09", "kind": kind, "nf": nf, "ids": ids, "fitted": fitted,
             "mseed": st.u64() & 0xFFFFFFFF, "ops": []}
     for _ in range(st.randint(2, 8)):
+        if plan["ops"] and st.bernoulli(0.15):
+            # the parameters of the live model object are replaced (documented: load_parameters "instantiate or update"):
+            # later estimates must follow the new parameters
+            plan["ops"].append({"form": "update_parameters", "pseed": st.randint(0, 10 ** 6), "req": {}, "order": [], "to_dataframe": None, "interleave": False})
+            continue
         form = st.choice(["dict", "dict", "multiindex", "multiindex", "trajectory"])
         k_ids = st.randint(1, n_ids)
         sel = st.sample(ids, k_ids)
@@ -146,6 +151,20 @@ def run_plan(plan: dict) -> dict:
 
     for oi, op in enumerate(plan["ops"]):
         form = op["form"]
+        if form == "update_parameters":
+            new_settings = ac.handwritten_settings(Stream(op["pseed"], "update"), kind, plan["nf"])
+            try:
+                with ac.quiet():
+                    model.load_parameters(ac.copy_settings(new_settings)["parameters"])
+            except Exception as e:
+                violation(out, "completes", f"load_parameters_raised:{type(e).__name__}", f"op{oi}: {e}")
+                break
+            params.clear()
+            params.update(new_settings["parameters"])
+            C["probe.parameters_updated_in_place"] += 1
+            log.add("update_parameters", oi)
+            keyparts.append("update_parameters")
+            continue
         req = {pid: r["ages"] for pid, r in op["req"].items()}
         styles = [r["style"] for r in op["req"].values()]
         for s in styles:
